@@ -343,6 +343,7 @@ package engine
 //@   at call (*engine.compiler).errf set metaErrors = metaErrors + 1
 //@   assigns c.errors, elems(c.errors), metaErrors
 //@   ensures meta != nil && meta.Vars != nil
+//@   ensures c.errors.arr == old(c.errors.arr) || fresh(c.errors.arr)
 //@   ensures [C02] only-the-two-kinds: forall k string {has(meta.Vars, k)} :: has(meta.Vars, k) ==> (meta.Vars[k] == 1 || meta.Vars[k] == 2)
 //@   ensures [C02] underscore-declares-nothing: !has(meta.Vars, "_")
 //@   ensures [C19] rejected-declarations-are-reported: len(c.errors) == old(len(c.errors)) + (metaErrors - old(metaErrors))
